@@ -62,6 +62,7 @@ struct Scenario {
   int preSyns = 2, gapSyns = 1, tailSyns = 3;
   int k = 2, c = 1, r = 0;     // deviation / chunk / late-request budgets for this scenario
   int slices = 1;              // the exploration of this scenario is split into this many work units
+  bool answerEntitlement = false;  // C03 clause (c): judged by the answer monitor in entitlement-only mode
   bool unbounded = false;      // A-mode: budgets are not a bound (the run length is), so they are not part of the state
   bool drainAtEnd = false;     // C04: force signal loss at the end
   bool faults = false;         // offer read/write error + device invalid alternatives
